@@ -143,7 +143,10 @@ class Coll:
                 lb = self.prog.async_body(lf) or lf
                 inner = self.gate_acquires(lb, direct_only=True)
                 mode = inner[0][1] if inner else "?"
-                checked = bool([c for c in lb.calls() if c.cid in self.check_ids])
+                # the wrapper counts as "checked" only if its check runs after its own acquisition
+                # (close/delete publish their state before waiting for the exclusive gate)
+                checked = any(lb.dominates(a.block, c.block) and a.block != c.block
+                              for c in lb.calls() if c.cid in self.check_ids for (a, _, _) in inner)
                 out.append((e, mode, checked))
         return out
 
